@@ -20,7 +20,9 @@ STR = ["stralloc_catb.c", "stralloc_opyb.c", "stralloc_pend.c", "stralloc_cats.c
        "stralloc_copy.c", "stralloc_cat.c", "byte_copy.c"]
 
 def obligations(tier):
-    obls = _borrow("C03", ["del_dochan", "pass_dochan", "markdone", "job_close"], tier)
+    # pqadd (restart must not schedule a channel twice) and todo_do (a message is never preprocessed again once it is being
+    # delivered: that would rebuild every recipient as 'to do') belong to "never retried / at most one attempt" as well
+    obls = _borrow("C03", ["del_dochan", "pass_dochan", "markdone", "job_close", "pqadd", "todo_do"], tier)
     obls.append(_plan("C16").startup_obligation())
     obls.append(Obl("del_start", "del_start.c",
         progs=[Prog("qmail-send.c", nomain=True, cut=["comm_write", "comm_canwrite", "del_status"])],
